@@ -1,0 +1,36 @@
+//go:build verif
+
+package x509
+
+import "crypto"
+
+// Verification hooks (add-only) for the signature-algorithm machinery.
+
+// VerifC03Detail is one row of signatureAlgorithmDetails.
+type VerifC03Detail struct {
+	Algo       int
+	OID        []int
+	PubKeyAlgo int
+	Hash       int
+}
+
+// VerifC03Details returns signatureAlgorithmDetails in table order.
+func VerifC03Details() []VerifC03Detail {
+	var out []VerifC03Detail
+	for _, d := range signatureAlgorithmDetails {
+		out = append(out, VerifC03Detail{Algo: int(d.algo), OID: append([]int{}, d.oid...), PubKeyAlgo: int(d.pubKeyAlgo), Hash: int(d.hash)})
+	}
+	return out
+}
+
+// VerifC03SigningParams is signingParamsForPublicKey.
+func VerifC03SigningParams(pub interface{}, requested SignatureAlgorithm) (hash crypto.Hash, oid []int, params []byte, err error) {
+	h, ai, err := signingParamsForPublicKey(pub, requested)
+	if err != nil {
+		return 0, nil, nil, err
+	}
+	return h, append([]int{}, ai.Algorithm...), append([]byte{}, ai.Parameters.FullBytes...), nil
+}
+
+// VerifC03IsRSAPSS is SignatureAlgorithm.isRSAPSS.
+func VerifC03IsRSAPSS(a SignatureAlgorithm) bool { return a.isRSAPSS() }
